@@ -279,6 +279,17 @@ class Summariser:
             e2 = dict(env)
             e2[sn] = model_of(self.gens_of(cur) + [Gen("e", (f"e in {src.sym}",))], diff=getattr(cur, "diff", []))
             return [(conds, "next", e2)]
+        # a filtered union: `if C(t): continue` + add_term(t)   /   `if C(t): add_term(t)`: only some of the operand's terms arrive
+        filt = None
+        if len(s.body) == 2 and isinstance(s.body[0], ast.If) and not s.body[0].orelse and len(s.body[0].body) == 1 \
+                and isinstance(s.body[0].body[0], ast.Continue) and unparse(s.body[1]) == f"{sn}.add_term({tv})":
+            filt = "not (" + unparse(s.body[0].test) + ")"
+        elif len(s.body) == 1 and isinstance(s.body[0], ast.If) and not s.body[0].orelse and [unparse(x) for x in s.body[0].body] == [f"{sn}.add_term({tv})"]:
+            filt = unparse(s.body[0].test)
+        if filt is not None:
+            e2 = dict(env)
+            e2[sn] = model_of(self.gens_of(cur) + [Gen("e", (f"e in {src.sym}", "where " + filt.replace(tv, "e")))], diff=getattr(cur, "diff", []))
+            return [(conds, "next", e2)]
         removed = []
         for b in s.body:
             ok = False
@@ -321,6 +332,12 @@ class Summariser:
     def _cond0(self, t, env):
         s = unparse(t)
         sn, on = self.self_name, self.other_name
+        if isinstance(t, ast.UnaryOp) and isinstance(t.op, ast.Not) and isinstance(t.operand, (ast.BoolOp, ast.Compare, ast.Call)):
+            # not C: the outcomes of C with the truth value flipped (labels describe the case, so they stay)
+            try:
+                return [(not truth, label) for truth, label in self._cond0(t.operand, env)]
+            except AnalysisError:
+                pass
         if isinstance(t, ast.Call) and dotted(t.func) == "isinstance" and isinstance(t.args[0], ast.Name) and t.args[0].id in env:
             v = env[t.args[0].id]
             cls = getattr(v, "cls", None)
@@ -423,6 +440,11 @@ class Summariser:
             d = dotted(n.func)
             if d in ("deepcopy", "copy.deepcopy") and len(n.args) == 1:
                 return self._expr(n.args[0], env)
+            # list(X) / tuple(X) / dict.fromkeys(X) (order-preserving removal of repeated elements): the same collection as a set of terms
+            if d in ("list", "tuple", "dict.fromkeys") and len(n.args) == 1 and not n.keywords:
+                inner = self._expr(n.args[0], env)
+                if inner.kind in ("listsym", "complist", "list", "family", "combos"):
+                    return inner
             if d == "Intercept":
                 return Val("I", cls="Intercept")
             if d == "NegatedIntercept":
@@ -689,13 +711,24 @@ class Summariser:
             rng = "range(" + ", ".join(parts) + ")"
             src = self._expr(gens[1].iter.args[0], env)
             size = unparse(gens[1].iter.args[1])
-            if size != unparse(gens[0].target) or unparse(n.elt) not in (f"list({unparse(gens[1].target)})", unparse(gens[1].target)):
+            if size != unparse(gens[0].target) or not isinstance(gens[1].target, ast.Name):
                 raise AnalysisError(f"algebra: unmodelled combinations idiom `{unparse(n)}`")
             if src.kind == "complist" and getattr(src, "sym", None):
-                return Val("combos", binder=f"combo in combinations({src.sym}, k), k in {rng}", of="components")
-            if src.kind != "listsym":
+                combos = Val("combos", binder=f"combo in combinations({src.sym}, k), k in {rng}", of="components")
+            elif src.kind == "listsym":
+                combos = Val("combos", binder=f"combo in combinations({src.sym}, k), k in {rng}")
+            else:
                 raise AnalysisError(f"algebra: unmodelled combinations idiom `{unparse(n)}`")
-            return Val("combos", binder=f"combo in combinations({src.sym}, k), k in {rng}")
+            if unparse(n.elt) in (f"list({unparse(gens[1].target)})", unparse(gens[1].target)):
+                return combos
+            # the element is computed from the combination right away: [Term(*deepcopy(p)) for k in ... for p in combinations(...)]
+            e2 = dict(env)
+            if getattr(combos, "of", "terms") == "components":
+                e2[gens[1].target.id] = Val("complist", parts=["each of combo"], sym=None)
+            else:
+                e2[gens[1].target.id] = Val("elem", name="combo", cls="combo")
+            elt = self._expr(n.elt, e2)
+            return Val("family", template=self.elem_key(elt), binders=[combos.binder])
         raise AnalysisError(f"algebra: unmodelled comprehension `{unparse(n)[:80]}` in {self.fn.qual}")
 
     # ---- normal form ------------------------------------------------------------------------
